@@ -8,6 +8,7 @@ Exit 0 = property held on everything explored, 1 = VIOLATION line printed, 2 = i
 import importlib
 import json
 import os
+import signal
 import sys
 import traceback
 import warnings
@@ -36,6 +37,16 @@ def main(argv):
   os.environ.setdefault("OPENBLAS_NUM_THREADS", "1")
   warnings.filterwarnings("ignore")
   ctx = common.Ctx(prop, tier, seed)
+
+  class Timeout(Exception):
+    pass
+
+  def on_alarm(_sig, _frm):
+    raise Timeout()
+  # a run that takes absurdly long is an infrastructure failure (exit 2), never a VIOLATION
+  limit = int(os.environ.get("VERIF_TIMEOUT", "1500" if tier == "quick" else "7200"))
+  signal.signal(signal.SIGALRM, on_alarm)
+  signal.alarm(limit)
   try:
     mod = importlib.import_module(prop.lower())
   except ImportError as e:
@@ -76,11 +87,14 @@ def main(argv):
                     {"broken": what, "audit_failures": ctx.audit_failures, "generated": ctx.gen_status,
                      "build_log_tail": ctx.build_log[-3000:], "disagreements": ctx.disagreements[:5]},
                     no_input=True)
+  except Timeout:
+    ctx.infra_error = f"timeout after {limit} s"
   except common.DriverError as e:
     ctx.infra_error = f"driver: {e}"
   except Exception as e:  # noqa
     traceback.print_exc()
     ctx.infra_error = f"{type(e).__name__}: {e}"
+  signal.alarm(0)
   return ctx.finish()
 
 
